@@ -1,4 +1,5 @@
 import FluteModel.Lemmas.BencStream
+import FluteModel.Lemmas.BencSim
 /-
   C20 - object sources interchangeable.
 
@@ -7,7 +8,7 @@ import FluteModel.Lemmas.BencStream
   All statements are for ALL bytes, ALL positions and ALL schedules.
 -/
 namespace Flute.Props.C20
-open Flute Flute.Fec Flute.BlockEnc Flute.BencShape Flute.BencStream
+open Flute Flute.Fec Flute.BlockEnc Flute.BencArith Flute.BencBlocks Flute.BencInv Flute.BencTrace Flute.BencShape Flute.BencStream Flute.BencSim
 
 /-- the repaired fill loop of `read_block_stream` delivers exactly the next `min(want, remaining)` bytes of the
     stream and advances the position by as much - whatever the read schedule (1 byte at a time, random short
@@ -33,12 +34,48 @@ theorem stream_block_eq_buffer_block (P : Params) (s : Enc) (st : Stream) (hnl :
       st'.bytes = st.bytes ∧ st'.pos = min (s.off + s.blockLength * P.e) st.bytes.length :=
   readBlockStream_eq_buffer P s st hnl hpos hlt hk
 
-/- FULL STATEMENT WANTED (`stream_eq_buffer`): for all bytes, OTI, schedules, the packet list of a transfer from
-   the stream = the packet list from the buffer.  What is proved: the block-cutting step above (for every
-   schedule) and that a transfer starts from position 0 (below).  What is missing for the full statement is the
-   simulation argument through `readLoop` ("the scheduling part of the encoder reads only blocks / idx /
-   counters, never the source"); it is validated instead: every quick run compares ≥ 700 chunked / Cursor /
-   File / BufReader<File> transfers pairwise with the buffer transfer and with this model (stream mode). -/
+/-- **stream = buffer, whole packet list.**  For ALL object bytes, OTI, window sizes, for a stream holding the same
+    bytes at ANY position with ANY read schedule, and for ANY sequence of `read(force)` calls (so also removal at
+    any packet index):  (1) every run of the buffer encoder is a run of the stream encoder with the same packets and
+    the same next result for either force flag (in particular `None` at the same call) - and (2) conversely;
+    (3) the executable packet list of a whole transfer is the same. -/
+theorem stream_eq_buffer {P : Params} {c : Bytes} {aL aS nL n : Nat} (h : Cfg P c aL aS nL n)
+    {closable : Bool} {st : BlockEnc.Stream} {sb0 ss0 : Enc} (hst : st.bytes = c)
+    (h1 : Enc.new P (.buffer c) closable = .ok sb0) (h2 : Enc.new P (.stream st) closable = .ok ss0) :
+    (∀ tr sb, Reads P sb0 tr sb → ∃ ss, Reads P ss0 tr ss ∧ ∀ f, (BlockEnc.read P sb f).1 = (BlockEnc.read P ss f).1) ∧
+    (∀ tr ss, Reads P ss0 tr ss → ∃ sb, Reads P sb0 tr sb ∧ ∀ f, (BlockEnc.read P sb f).1 = (BlockEnc.read P ss f).1) ∧
+    (∀ fuel, runAll P fuel ss0 = runAll P fuel sb0) := by
+  have hS := h.setup
+  have hsim := sim_init hst h1 h2
+  have hs0 := new_state h.part h1
+  obtain ⟨hI0, hT0⟩ := inv_init hS closable
+  rw [← hs0] at hI0 hT0
+  have hst0 : sb0.stopped = false := by rw [hs0]
+  refine ⟨?_, ?_, ?_⟩
+  · intro tr sb hr
+    obtain ⟨ss, hrs, hs⟩ := sim_reads_bs hS h.accepts hsim hI0 hT0 hst0 hr
+    obtain ⟨hI, hT, _, _⟩ := reach hS h.accepts hI0 hT0 hst0 hr
+    exact ⟨ss, hrs, fun f => (sim_read hS h.accepts (tr := pkts tr) f hs hI hT).1⟩
+  · intro tr ss hr
+    obtain ⟨sb, hrb, hs⟩ := sim_reads_sb hS h.accepts hsim hI0 hT0 hst0 hr
+    obtain ⟨hI, hT, _, _⟩ := reach hS h.accepts hI0 hT0 hst0 hrb
+    exact ⟨sb, hrb, fun f => (sim_read hS h.accepts (tr := pkts tr) f hs hI hT).1⟩
+  · intro fuel
+    rw [runAll_eq_runPairs, runAll_eq_runPairs, (sim_runPairs hS h.accepts fuel sb0 ss0 [] hsim hI0 hT0).1]
+
+/-- **n transfers = n identical copies.**  `k` consecutive transfers of a stream source (each transfer finds the stream
+    wherever the previous one left it, with whatever is left of the read schedule) emit `k` times the packet list of
+    ONE transfer from the buffer - and so do `k` transfers of the buffer source.  (Same `closable` flag for all `k`; in
+    a Sender the last of `max_transfer_count` transfers differs from the others only by that flag, i.e. by B on its
+    final packet - `close_object_only_last`.) -/
+theorem each_transfer_rereads_n {P : Params} {c : Bytes} {aL aS nL n : Nat} (h : Cfg P c aL aS nL n)
+    {closable : Bool} {sb0 : Enc} (h1 : Enc.new P (.buffer c) closable = .ok sb0) (fuel k : Nat)
+    (st : BlockEnc.Stream) (hst : st.bytes = c) :
+    nTransfers P closable fuel k (.stream st) = List.replicate k (runAll P fuel sb0) ∧
+    nTransfers P closable fuel k (.buffer c) = List.replicate k (runAll P fuel sb0) := by
+  rw [runAll_eq_runPairs]
+  exact ⟨nTransfers_stream h.setup h.accepts h.part h1 fuel k st hst,
+         nTransfers_buffer h.setup h.accepts h.part h1 fuel k⟩
 
 /-- every transfer re-reads the source from its start: the encoder a transfer starts with does not depend on
     where the previous transfer left the stream -/
@@ -85,5 +122,11 @@ theorem d8_legacy_stream_ne_buffer :
 /-- after the repair the same input gives the buffer's packets -/
 theorem d8_repaired_stream_eq_buffer :
     d8Run false d8Stream = d8Run false (.buffer d8Bytes) ∧ (d8Run false d8Stream).length = 10 := by decide
+
+/-- non-vacuity of `Cfg`: 5 bytes, E = 2, B = 2, No-Code, window 2 -/
+example : Cfg { codec := noCode, e := 2, b := 2, p := 0, window := 2, len := 5 } [1, 2, 3, 4, 5] 2 1 1 2 :=
+  ⟨rfl, by decide, by decide, rfl, by decide, rfl,
+   accepts_of_total ⟨rfl, by decide, rfl, by decide,
+      good_of_partition 2 5 2 2 1 1 2 (by decide) (by decide) (by decide) rfl⟩ (fun _ _ _ => rfl)⟩
 
 end Flute.Props.C20
